@@ -3,8 +3,10 @@
 pub mod c02;
 pub mod c04;
 pub mod c06;
+pub mod c11;
 pub mod c14;
 pub mod c18;
+pub mod c19;
 
 use crate::cfg::{gen_cfg, Cfg};
 use crate::engine::{self, Spec};
@@ -176,6 +178,14 @@ pub fn dispatch(a: &Args) -> Option<(Acc, RunMeta)> {
             let mut m = meta(a, "complete enumeration of the path set of two embedded fixtures (committed harness/fixtures/embed_tree with nested, dotted, multi-byte, prefix-sharing names, empty and binary files; the repository's test/test_directory): every file, implied directory, the root, absent siblings, every proper prefix and one-character extensions of existing names, paths below files; all observers via full snapshots with read buffers 1/7/8192 compared with PhysicalFS on the same folder and with the folder read by std::fs; every public path operation (incl. extreme read/seek scripts) on every such path; every mutator must be refused (NotSupported where a writable backend would accept) and change nothing; distinct = distinct probed paths", &["rust-embed debug-embed feature: bytes really come from the binary", "fixture folders contain no empty directories (an embedded folder cannot represent them)"]);
             m.exhaustive = Some(true);
             Some((acc, m))
+        }
+        "C19" => {
+            let acc = c19::run(a);
+            Some((acc, meta(a, "per case: a directory and two files (upper-only, lower-only or copied-up on overlays) on Mem/Phys/Alt/Ovl/Alt(Ovl)/Ovl[Alt] configurations; 3-9 setter calls over the three fields in random order with values from {epoch, +1ns, sub-second extremes, 2001, 2023, 2096, year 9999, before the epoch} (host-calibrated for PhysicalFS); metadata before/after each setter (no reads in between): the set field round-trips exactly, other timestamps/len/type unchanged, failures must be NotSupported and change nothing; adapter metadata equals the served entry's own metadata; appends preserve `created` on memory-backed entries; bytes compared at the end; distinct = distinct (field, entry kind, placement, config family, value)", &["PhysicalFS time values are first calibrated on the host: only values the OS round-trips exactly are demanded"])))
+        }
+        "C11" => {
+            let acc = c11::run(a);
+            Some((acc, meta(a, "per case: generated source tree (depth<=4, empty directories, binary files 0..20000 bytes incl. the 8 KiB boundary; on overlays partly in a lower layer) on filesystem A and a generated destination filesystem B (same instance, a twin instance of the same configuration, or another backend from {Mem, Phys, Alt(Mem), Alt(Phys), Ovl}); 1-4 operations from create_dir_all/remove_dir_all/copy_file/move_file/copy_dir/move_dir with destinations: free name, existing entry, missing parent, below a file, the root; full snapshots of both filesystems before/after vs the pair model; call log of the top-level wrapper classifies the route (fast path / NotSupported fallback / cross-instance stream copy); coverage floor: every route taken; distinct = distinct observable state pairs", ENGINE_ASSUMPTIONS)))
         }
         "C14" => {
             let acc = c14::run(a);
